@@ -1,5 +1,5 @@
 (* C09 — proofs about the token-exact PEG interpreter of C09/Peg.v:
-     peg_suffix, peg_mono          basic facts
+     peglr_suffix, peglr_mono      basic facts (peg_* : the same for the interpreter without left recursion, LR = [])
      requires_kw_sound             an expression flagged by the keyword analysis cannot succeed on keyword-free input
      conservative_extension        on keyword-free input the extended (Scenic) grammar computes exactly the result of
                                    the base (Python) grammar: same success remainder, or failure (cut modelled precisely)
@@ -59,18 +59,23 @@ Qed.
 
 (* ---- case analysis on one interpreter step ---------------------------------------------------------------- *)
 
+(* destruct the scrutinee of the OUTERMOST match of [H : match .. end = _], repeatedly *)
 Ltac crunch H :=
-  repeat match type of H with
-  | context[match pegc ?n ?G ?e ?s with _ => _ end] =>
-      let E := fresh "E" in revert H; destruct (pegc n G e s) as [[? ?]|] eqn:E; intro H
-  | context[match ?o with Some _ => _ | None => _ end] => is_var o; destruct o
-  | context[match lookup ?G ?r with _ => _ end] =>
-      let L := fresh "L" in revert H; destruct (lookup G r) eqn:L; intro H
-  | context[if ?b then _ else _] =>
-      first [ is_var b; destruct b
-            | let Q := fresh "Q" in revert H; destruct b eqn:Q; intro H ]
-  | context[match ?s with [] => _ | _ :: _ => _ end] => is_var s; destruct s
-  end; try discriminate H.
+  repeat (cbn beta iota in H;
+          match type of H with
+          | (match ?X with _ => _ end) = _ =>
+              lazymatch X with
+              | pegc ?n ?G ?LR ?M ?e ?s =>
+                  let E := fresh "E" in revert H; destruct (pegc n G LR M e s) as [[? ?]|] eqn:E; intro H
+              | grow ?n ?G ?LR ?M ?r ?b ?s ?sd =>
+                  let E := fresh "E" in revert H; destruct (grow n G LR M r b s sd) as [[? ?]|] eqn:E; intro H
+              | lookup ?G ?r =>
+                  let L := fresh "L" in revert H; destruct (lookup G r) eqn:L; intro H
+              | _ => first [ is_var X; destruct X
+                           | let Q := fresh "Q" in revert H; destruct X eqn:Q; intro H ]
+              end
+          end);
+  cbn beta iota in H; try discriminate H.
 
 Ltac inj H :=
   match type of H with
@@ -78,116 +83,211 @@ Ltac inj H :=
   | _ => idtac
   end.
 
-(* ---- 1. suffix and fuel monotonicity ----------------------------------------------------------------------- *)
+(* ---- memo invariants ---------------------------------------------------------------------------------------- *)
 
-Lemma pegc_suffix : forall fuel G e s c s', pegc fuel G e s = Some (c, Some s') -> suf s s'.
+Lemma leqb_eq : forall a b, leqb a b = true -> a = b.
 Proof.
-  induction fuel as [|n IH]; intros G e s c s' H; [discriminate|].
-  destruct e; simpl in H; crunch H; inj H;
-    eauto 6 using suf_refl, suf_trans, suf_cons.
+  induction a as [|x a IH]; destruct b as [|y b]; simpl; intro H; try discriminate; auto.
+  apply andb_true_iff in H. destruct H as [H1 H2]. apply N.eqb_eq in H1. f_equal; auto.
 Qed.
 
-Lemma pegc_mono : forall n G e s r, pegc n G e s = Some r -> forall m, (n <= m)%nat -> pegc m G e s = Some r.
+(* every seed is a suffix of the input of its call *)
+Definition Msuf (M : memo) : Prop := forall r s s', mlookup M r s = Some (Some s') -> suf s s'.
+(* no seed is a success of a keyword-requiring rule on keyword-free input *)
+Definition Mkw (K tbl : list N) (M : memo) : Prop :=
+  forall r s s', memN r tbl = true -> kwfree K s = true -> mlookup M r s = Some (Some s') -> False.
+
+Lemma Msuf_nil : Msuf [].
+Proof. intros r s s' H; discriminate. Qed.
+
+Lemma Mkw_nil : forall K tbl, Mkw K tbl [].
+Proof. intros K tbl r s s' _ _ H; discriminate. Qed.
+
+Lemma Msuf_cons : forall M r s seed, Msuf M -> (forall s0, seed = Some s0 -> suf s s0) -> Msuf ((r, s, seed) :: M).
 Proof.
-  induction n as [|n IH]; intros G e s r H m Hle; [discriminate|].
-  destruct m as [|m]; [lia|]. assert (Hle' : (n <= m)%nat) by lia.
-  destruct e; simpl in H |- *; crunch H;
-    repeat match goal with
-           | E : pegc n ?G ?e ?s = Some ?r |- _ => rewrite (IH G e s r E m Hle'); clear E; cbn iota beta
-           | Q : ?b = _ |- context[?b] => rewrite Q
-           end; auto.
+  intros M r s seed HM Hs r0 s0 s' H. simpl in H.
+  destruct ((r0 =? r) && leqb s0 s) eqn:Q; [|eauto].
+  apply andb_true_iff in Q. destruct Q as [_ Q]. apply leqb_eq in Q. subst s0. inversion H; subst. auto.
+Qed.
+
+Lemma Mkw_cons : forall K tbl M r s seed, Mkw K tbl M ->
+  (memN r tbl = true -> kwfree K s = true -> seed = None) -> Mkw K tbl ((r, s, seed) :: M).
+Proof.
+  intros K tbl M r s seed HM Hs r0 s0 s' Hr Hk H. simpl in H.
+  destruct ((r0 =? r) && leqb s0 s) eqn:Q; [|eauto].
+  apply andb_true_iff in Q. destruct Q as [Q1 Q2]. apply leqb_eq in Q2. apply N.eqb_eq in Q1. subst s0 r0.
+  rewrite (Hs Hr Hk) in H. discriminate.
+Qed.
+
+(* ---- 1. suffix and fuel monotonicity ----------------------------------------------------------------------- *)
+
+Lemma suffix_both : forall n,
+  (forall G LR M e s c s', Msuf M -> pegc n G LR M e s = Some (c, Some s') -> suf s s') /\
+  (forall G LR M r b s seed c s', Msuf M -> (forall s0, seed = Some s0 -> suf s s0) ->
+     grow n G LR M r b s seed = Some (c, Some s') -> suf s s').
+Proof.
+  induction n as [|n [IHp IHg]]; split; try (intros; discriminate).
+  - intros G LR M e s c s' HM H.
+    destruct e; simpl in H; crunch H; inj H;
+      eauto 6 using suf_refl, suf_trans, suf_cons.
+    eapply IHg; [exact HM| |eassumption]. intros; discriminate.
+  - intros G LR M r b s seed c s' HM Hs H.
+    simpl in H; crunch H; inj H; auto.
+    eapply (IHg _ _ _ _ _ _ (Some l)); [exact HM| |eassumption].
+    intros s0 A; inversion A; subst. eapply IHp; [|eassumption]. now apply Msuf_cons.
+Qed.
+
+Lemma pegc_suffix : forall n G LR M e s c s', Msuf M -> pegc n G LR M e s = Some (c, Some s') -> suf s s'.
+Proof. intro n. exact (proj1 (suffix_both n)). Qed.
+
+Lemma mono_both : forall n,
+  (forall G LR M e s r, pegc n G LR M e s = Some r -> forall m, (n <= m)%nat -> pegc m G LR M e s = Some r) /\
+  (forall G LR M r0 b s seed r, grow n G LR M r0 b s seed = Some r ->
+     forall m, (n <= m)%nat -> grow m G LR M r0 b s seed = Some r).
+Proof.
+  induction n as [|n [IHp IHg]]; split; try (intros; discriminate).
+  - intros G LR M e s r H m Hle. destruct m as [|m]; [lia|]. assert (Hle' : (n <= m)%nat) by lia.
+    destruct e; simpl in H |- *; crunch H;
+      repeat match goal with
+             | E : pegc n ?G ?LR ?M ?e ?s = Some ?r |- _ => rewrite (IHp G LR M e s r E m Hle'); clear E; cbn iota beta
+             | E : grow n ?G ?LR ?M ?r0 ?b ?s ?sd = Some ?r |- _ =>
+                 rewrite (IHg G LR M r0 b s sd r E m Hle'); clear E; cbn iota beta
+             | Q : ?b = _ |- context[?b] => rewrite Q
+             end; auto.
+  - intros G LR M r0 b s seed r H m Hle. destruct m as [|m]; [lia|]. assert (Hle' : (n <= m)%nat) by lia.
+    simpl in H |- *; crunch H;
+      repeat match goal with
+             | E : pegc n ?G ?LR ?M ?e ?s = Some ?r |- _ => rewrite (IHp G LR M e s r E m Hle'); clear E; cbn iota beta
+             | E : grow n ?G ?LR ?M ?r0 ?b ?s ?sd = Some ?r |- _ =>
+                 rewrite (IHg G LR M r0 b s sd r E m Hle'); clear E; cbn iota beta
+             | Q : ?b = _ |- context[?b] => rewrite Q
+             end; auto.
+Qed.
+
+Lemma pegc_mono : forall n G LR M e s r, pegc n G LR M e s = Some r ->
+  forall m, (n <= m)%nat -> pegc m G LR M e s = Some r.
+Proof. intro n. exact (proj1 (mono_both n)). Qed.
+
+Lemma grow_mono : forall n G LR M r0 b s seed r, grow n G LR M r0 b s seed = Some r ->
+  forall m, (n <= m)%nat -> grow m G LR M r0 b s seed = Some r.
+Proof. intro n. exact (proj2 (mono_both n)). Qed.
+
+Theorem peglr_suffix : forall fuel G LR e s s', peglr fuel G LR e s = Some (Some s') -> exists p, s = p ++ s'.
+Proof.
+  unfold peglr; intros fuel G LR e s s' H.
+  destruct (pegc fuel G LR [] e s) as [[c [t|]]|] eqn:E; simpl in H; try discriminate.
+  inversion H; subst. exact (pegc_suffix _ _ _ _ _ _ _ _ Msuf_nil E).
+Qed.
+
+Theorem peglr_mono : forall n G LR e s r, peglr n G LR e s = Some r ->
+  forall m, (n <= m)%nat -> peglr m G LR e s = Some r.
+Proof.
+  unfold peglr; intros n G LR e s r H m Hle.
+  destruct (pegc n G LR [] e s) as [x|] eqn:E; [|discriminate].
+  now rewrite (pegc_mono _ _ _ _ _ _ _ E m Hle).
 Qed.
 
 Theorem peg_suffix : forall fuel G e s s', peg fuel G e s = Some (Some s') -> exists p, s = p ++ s'.
-Proof.
-  unfold peg; intros fuel G e s s' H.
-  destruct (pegc fuel G e s) as [[c [t|]]|] eqn:E; simpl in H; try discriminate.
-  inversion H; subst. exact (pegc_suffix _ _ _ _ _ _ E).
-Qed.
+Proof. intros fuel G. exact (peglr_suffix fuel G []). Qed.
 
 Theorem peg_mono : forall n G e s r, peg n G e s = Some r -> forall m, (n <= m)%nat -> peg m G e s = Some r.
-Proof.
-  unfold peg; intros n G e s r H m Hle.
-  destruct (pegc n G e s) as [x|] eqn:E; [|discriminate].
-  now rewrite (pegc_mono _ _ _ _ _ E m Hle).
-Qed.
+Proof. intros n G. exact (peglr_mono n G []). Qed.
 
 (* ---- 2. soundness of the keyword analysis ------------------------------------------------------------------ *)
 
-Lemma requires_kw_sound_c : forall G K tbl, kw_consistent G K tbl = true ->
-  forall fuel e s c s', requires_kw K tbl e = true -> kwfree K s = true ->
-  pegc fuel G e s = Some (c, Some s') -> False.
+Lemma rk_both : forall G K tbl LR, kw_consistent G K tbl = true -> forall n,
+  (forall M e s c s', Msuf M -> Mkw K tbl M -> requires_kw K tbl e = true -> kwfree K s = true ->
+     pegc n G LR M e s = Some (c, Some s') -> False) /\
+  (forall M r b s c s', Msuf M -> Mkw K tbl M -> memN r tbl = true -> requires_kw K tbl b = true ->
+     kwfree K s = true -> grow n G LR M r b s None = Some (c, Some s') -> False).
 Proof.
-  intros G K tbl HC. induction fuel as [|n IH]; intros e s c s' Hrk Hk H; [discriminate|].
-  destruct e; simpl in Hrk; try discriminate Hrk; simpl in H.
-  - (* PTok *)
-    crunch H. apply N.eqb_eq in Q; subst n0. simpl in Hk. rewrite Hrk in Hk. discriminate.
-  - (* PRule *)
-    destruct (kwc_lookup _ _ _ _ HC Hrk) as (b & L & Hb). rewrite L in H.
-    crunch H; inj H. eauto.
-  - (* PSeq *)
-    crunch H; inj H. apply orb_true_iff in Hrk. destruct Hrk as [Hrk|Hrk]; [eauto|].
-    eapply (IH e2 l _ _ Hrk); [|eassumption]. eapply kwfree_suf; eauto using pegc_suffix.
-  - (* PAlt *)
-    apply andb_true_iff in Hrk. destruct Hrk. crunch H; inj H; eauto.
-  - (* PPlus *)
-    crunch H; eauto.
-  - (* PGather *)
-    crunch H; eauto.
-  - (* PForced *)
-    eauto.
+  intros G K tbl LR HC. induction n as [|n [IHp IHg]]; split; try (intros; discriminate).
+  - intros M e s c s' HS HM Hrk Hk H.
+    destruct e; simpl in Hrk; try discriminate Hrk; simpl in H.
+    + (* PTok *)
+      crunch H. inj H. apply N.eqb_eq in Q; subst n0. simpl in Hk. rewrite Hrk in Hk. discriminate.
+    + (* PRule *)
+      destruct (kwc_lookup _ _ _ _ HC Hrk) as (b & L & Hb). rewrite L in H.
+      crunch H; inj H; eauto.
+    + (* PSeq *)
+      crunch H; inj H. apply orb_true_iff in Hrk. destruct Hrk as [Hrk|Hrk]; [eauto|].
+      eapply (IHp M e2 l _ _ HS HM Hrk); [|eassumption]. eapply kwfree_suf; eauto using pegc_suffix.
+    + (* PAlt *)
+      apply andb_true_iff in Hrk. destruct Hrk. crunch H; inj H; eauto.
+    + (* PPlus *)
+      crunch H; eauto.
+    + (* PGather *)
+      crunch H; eauto.
+    + (* PForced *)
+      eauto.
+  - intros M r b s c s' HS HM Hr Hrk Hk H.
+    simpl in H. crunch H; inj H.
+    eapply (IHp ((r, s, None) :: M) b s); try eassumption.
+    + apply Msuf_cons; auto. intros; discriminate.
+    + apply Mkw_cons; auto.
+Qed.
+
+Lemma requires_kw_sound_c : forall G K tbl LR, kw_consistent G K tbl = true ->
+  forall n M e s c s', Msuf M -> Mkw K tbl M -> requires_kw K tbl e = true -> kwfree K s = true ->
+  pegc n G LR M e s = Some (c, Some s') -> False.
+Proof. intros G K tbl LR HC n. exact (proj1 (rk_both G K tbl LR HC n)). Qed.
+
+(* an alternative flagged by the analysis cannot succeed on a keyword-free token stream *)
+Theorem requires_kw_sound_lr : forall G K tbl LR e s,
+  kw_consistent G K tbl = true -> requires_kw K tbl e = true -> kwfree K s = true ->
+  forall fuel s', peglr fuel G LR e s <> Some (Some s').
+Proof.
+  intros G K tbl LR e s HC Hrk Hk fuel s' H. unfold peglr in H.
+  destruct (pegc fuel G LR [] e s) as [[c [t|]]|] eqn:E; simpl in H; try discriminate.
+  eapply requires_kw_sound_c; eauto using Msuf_nil, Mkw_nil.
 Qed.
 
 Theorem requires_kw_sound : forall G K tbl e s,
   kw_consistent G K tbl = true -> requires_kw K tbl e = true -> kwfree K s = true ->
   forall fuel s', peg fuel G e s <> Some (Some s').
-Proof.
-  intros G K tbl e s HC Hrk Hk fuel s' H. unfold peg in H.
-  destruct (pegc fuel G e s) as [[c [t|]]|] eqn:E; simpl in H; try discriminate.
-  eapply requires_kw_sound_c; eauto.
-Qed.
+Proof. intros G K tbl e s. exact (requires_kw_sound_lr G K tbl [] e s). Qed.
 
 (* ---- cut-flag analyses -------------------------------------------------------------------------------------- *)
 
-Lemma nocut_sound : forall fuel G e s c o, nocut e = true -> pegc fuel G e s = Some (c, o) -> c = false.
+Lemma nocut_sound : forall fuel G LR M e s c o, nocut e = true -> pegc fuel G LR M e s = Some (c, o) -> c = false.
 Proof.
-  induction fuel as [|n IH]; intros G e s c o Hn H; [discriminate|].
+  induction fuel as [|n IH]; intros G LR M e s c o Hn H; [discriminate|].
   destruct e; simpl in Hn; try discriminate Hn; simpl in H; crunch H; inj H; auto;
     try (apply andb_true_iff in Hn; destruct Hn as [Hn1 Hn2]).
   all: repeat match goal with
-              | E : pegc _ _ ?e _ = Some (?c, _), Hn : nocut ?e = true |- _ =>
-                  is_var c; assert (c = false) by exact (IH _ _ _ _ _ Hn E); subst c
+              | E : pegc _ _ _ _ ?e _ = Some (?c, _), Hn : nocut ?e = true |- _ =>
+                  is_var c; assert (c = false) by exact (IH _ _ _ _ _ _ _ Hn E); subst c
               end.
   all: try reflexivity.
   all: eapply IH; [|eassumption]; reflexivity.
 Qed.
 
-Lemma cut_safe_sound : forall G K tbl, kw_consistent G K tbl = true ->
-  forall fuel e s c o, cut_safe K tbl e = true -> kwfree K s = true ->
-  pegc fuel G e s = Some (c, o) -> c = false.
+Lemma cut_safe_sound : forall G K tbl LR, kw_consistent G K tbl = true ->
+  forall fuel M e s c o, Msuf M -> Mkw K tbl M -> cut_safe K tbl e = true -> kwfree K s = true ->
+  pegc fuel G LR M e s = Some (c, o) -> c = false.
 Proof.
-  intros G K tbl HC. induction fuel as [|n IH]; intros e s c o Hs Hk H; [discriminate|].
+  intros G K tbl LR HC. induction fuel as [|n IH]; intros M e s c o HS HM Hs Hk H; [discriminate|].
   destruct e; simpl in Hs; try discriminate Hs; simpl in H.
   all: try (crunch H; inj H; auto; fail).
   - (* PSeq *)
     apply andb_true_iff in Hs. destruct Hs as [Hs1 Hs2].
     crunch H; inj H;
-      match goal with E : pegc n G e1 s = Some (?c, _) |- _ =>
-        assert (c = false) by exact (IH _ _ _ _ Hs1 Hk E); subst c end;
+      match goal with E : pegc n G LR M e1 s = Some (?c, _) |- _ =>
+        assert (c = false) by exact (IH _ _ _ _ _ HS HM Hs1 Hk E); subst c end;
       try reflexivity;
       (apply orb_true_iff in Hs2; destruct Hs2 as [Hs2|Hs2]; [exfalso; eapply requires_kw_sound_c; eauto|]);
-      match goal with E : pegc n G e1 s = Some (_, Some ?l), E0 : pegc n G e2 ?l = Some (?c, _) |- _ =>
+      match goal with E : pegc n G LR M e1 s = Some (_, Some ?l), E0 : pegc n G LR M e2 ?l = Some (?c, _) |- _ =>
         assert (c = false)
-          by (refine (IH _ _ _ _ Hs2 _ E0); eapply kwfree_suf; eauto using pegc_suffix); subst c end;
+          by (refine (IH _ _ _ _ _ HS HM Hs2 _ E0); eapply kwfree_suf; eauto using pegc_suffix); subst c end;
       reflexivity.
   - (* PStar *)
-    crunch H; inj H; auto. eapply (IH (PStar e)); [reflexivity| |eassumption].
+    crunch H; inj H; auto. eapply (IH M (PStar e)); [exact HS|exact HM|reflexivity| |eassumption].
     eapply kwfree_suf; eauto using pegc_suffix.
   - (* PPlus *)
-    crunch H; inj H; auto. eapply (IH (PStar e)); [reflexivity| |eassumption].
+    crunch H; inj H; auto. eapply (IH M (PStar e)); [exact HS|exact HM|reflexivity| |eassumption].
     eapply kwfree_suf; eauto using pegc_suffix.
   - (* PGather *)
-    crunch H; inj H; auto. eapply (IH (PStar (PSeq e1 e2))); [reflexivity| |eassumption].
+    crunch H; inj H; auto. eapply (IH M (PStar (PSeq e1 e2))); [exact HS|exact HM|reflexivity| |eassumption].
     eapply kwfree_suf; eauto using pegc_suffix.
   - (* PForced *) eauto.
 Qed.
@@ -196,24 +296,53 @@ Qed.
 
 Ltac rw_mono :=
   repeat match goal with
-         | P : pegc ?f1 ?G ?e ?s = Some ?r |- context[pegc ?f ?G ?e ?s] =>
-             rewrite (pegc_mono f1 G e s r P f) by lia; cbn iota beta
+         | P : pegc ?f1 ?G ?LR ?M ?e ?s = Some ?r |- context[pegc ?f ?G ?LR ?M ?e ?s] =>
+             rewrite (pegc_mono f1 G LR M e s r P f) by lia; cbn iota beta
+         | P : grow ?f1 ?G ?LR ?M ?r0 ?b ?s ?sd = Some ?r |- context[grow ?f ?G ?LR ?M ?r0 ?b ?s ?sd] =>
+             rewrite (grow_mono f1 G LR M r0 b s sd r P f) by lia; cbn iota beta
          | Q : Nat.eqb ?a ?b = _ |- context[Nat.eqb ?a ?b] => rewrite Q; cbn iota beta
+         | Q : better ?a ?b ?c = _ |- context[better ?a ?b ?c] => rewrite Q; cbn iota beta
+         | Q : memN ?a ?b = _ |- context[memN ?a ?b] => rewrite Q; cbn iota beta
+         | Q : mlookup ?a ?b ?c = _ |- context[mlookup ?a ?b ?c] => rewrite Q; cbn iota beta
          | L : lookup ?G ?r = _ |- context[lookup ?G ?r] => rewrite L; cbn iota beta
          end.
 
 Section Ext.
-  Variables (K tbl : list N) (Gs Gp : grammar).
+  Variables (K tbl : list N) (Gs Gp : grammar) (LR : list N).
   Hypothesis HG : ext_grammar K tbl Gs Gp = true.
   Hypothesis HC : kw_consistent Gs K tbl = true.
 
-  Lemma ext_sound_c : forall fuel ab es ep s c o,
-    ext_aux K tbl ab es ep = true -> refs_defined Gp ep = true -> kwfree K s = true ->
-    pegc fuel Gs es s = Some (c, o) ->
-    exists fuel' c', pegc fuel' Gp ep s = Some (c', o) /\ (ab = false -> c' = c).
+  Lemma ext_both : forall n,
+    (forall ab es ep M s c o, Msuf M -> Mkw K tbl M ->
+       ext_aux K tbl ab es ep = true -> refs_defined Gp ep = true -> kwfree K s = true ->
+       pegc n Gs LR M es s = Some (c, o) ->
+       exists fuel' c', pegc fuel' Gp LR M ep s = Some (c', o) /\ (ab = false -> c' = c)) /\
+    (forall M r bs bp s seed c o, Msuf M -> Mkw K tbl M ->
+       Msuf ((r, s, seed) :: M) -> Mkw K tbl ((r, s, seed) :: M) ->
+       lookup Gs r = Some bs -> ext_check K tbl bs bp = true -> refs_defined Gp bp = true -> kwfree K s = true ->
+       grow n Gs LR M r bs s seed = Some (c, o) ->
+       exists fuel', grow fuel' Gp LR M r bp s seed = Some (false, o)).
   Proof.
-    induction fuel as [|n IH]; intros ab es ep s c o Hx Hr Hk H; [discriminate|].
-    assert (KS : forall a c1 s1, pegc n Gs a s = Some (c1, Some s1) -> kwfree K s1 = true)
+    induction n as [|n [IH IHg]]; split; try (intros; discriminate).
+    2:{ (* seed growing *)
+      intros M r bs bp s seed c o HS HM HS' HM' Ls Hbx Hbr Hk H.
+      simpl in H. crunch H; inj H.
+      - (* improved seed: next round *)
+        destruct (IH true _ _ _ _ _ _ HS' HM' Hbx Hbr Hk E) as (f1 & c1 & P1 & _).
+        assert (HS2 : Msuf ((r, s, Some l) :: M)).
+        { apply Msuf_cons; auto. intros s0 A; inversion A; subst. eapply pegc_suffix; eauto. }
+        assert (HM2 : Mkw K tbl ((r, s, Some l) :: M)).
+        { apply Mkw_cons; auto. intros Hr _. exfalso.
+          destruct (kwc_lookup _ _ _ _ HC Hr) as (b' & L' & Hb'). rewrite Ls in L'. inversion L'; subst b'.
+          exact (requires_kw_sound_c _ _ _ LR HC _ _ _ _ _ _ HS' HM' Hb' Hk E). }
+        destruct (IHg _ _ _ _ _ _ _ _ HS HM HS2 HM2 Ls Hbx Hbr Hk H) as (f2 & P2).
+        exists (S (f1 + f2)). simpl. rw_mono. reflexivity.
+      - destruct (IH true _ _ _ _ _ _ HS' HM' Hbx Hbr Hk E) as (f1 & c1 & P1 & _).
+        exists (S f1). simpl. rw_mono. reflexivity.
+      - destruct (IH true _ _ _ _ _ _ HS' HM' Hbx Hbr Hk E) as (f1 & c1 & P1 & _).
+        exists (S f1). simpl. rw_mono. reflexivity. }
+    intros ab es ep M s c o HS HM Hx Hr Hk H.
+    assert (KS : forall a c1 s1, pegc n Gs LR M a s = Some (c1, Some s1) -> kwfree K s1 = true)
       by (intros; eapply kwfree_suf; eauto using pegc_suffix).
     destruct es; simpl in Hx.
     - (* PTok *)
@@ -224,19 +353,27 @@ Section Ext.
       simpl in Hr. destruct (lookup Gp r) as [bp|] eqn:Lp; [|discriminate].
       destruct (ext_grammar_lookup _ _ _ _ _ _ HG Lp) as (bs & Ls & Hbx & Hbr).
       simpl in H. rewrite Ls in H. crunch H; inj H.
-      destruct (IH true _ _ _ _ _ Hbx Hbr Hk E) as (f1 & c1 & P1 & _).
-      exists (S f1), false. simpl. rw_mono. auto.
+      + (* leader, in progress *)
+        exists 1%nat, false. simpl. rw_mono. auto.
+      + (* leader, seed growing *)
+        assert (HS' : Msuf ((r, s, None) :: M)) by (apply Msuf_cons; auto; intros; discriminate).
+        assert (HM' : Mkw K tbl ((r, s, None) :: M)) by (apply Mkw_cons; auto).
+        destruct (IHg _ _ _ _ _ _ _ _ HS HM HS' HM' Ls Hbx Hbr Hk E) as (f1 & P1).
+        exists (S f1), false. simpl. rw_mono. auto.
+      + (* plain call *)
+        destruct (IH true _ _ _ _ _ _ HS HM Hbx Hbr Hk E) as (f1 & c1 & P1 & _).
+        exists (S f1), false. simpl. rw_mono. auto.
     - (* PEps *)
       destruct ep; try discriminate Hx. exists 1%nat, c. split; [exact H|auto].
     - (* PSeq *)
       destruct ep; try discriminate Hx. apply andb_true_iff in Hx. destruct Hx as [Hx1 Hx2].
       simpl in Hr. apply andb_true_iff in Hr. destruct Hr as [Hr1 Hr2].
       simpl in H. crunch H; inj H.
-      + destruct (IH ab _ _ _ _ _ Hx1 Hr1 Hk E) as (f1 & c1 & P1 & Q1).
-        destruct (IH ab _ _ _ _ _ Hx2 Hr2 (KS _ _ _ E) E0) as (f2 & c2 & P2 & Q2).
+      + destruct (IH ab _ _ _ _ _ _ HS HM Hx1 Hr1 Hk E) as (f1 & c1 & P1 & Q1).
+        destruct (IH ab _ _ _ _ _ _ HS HM Hx2 Hr2 (KS _ _ _ E) E0) as (f2 & c2 & P2 & Q2).
         exists (S (f1 + f2)), (c1 || c2). simpl. rw_mono. split; [reflexivity|].
         intro A. now rewrite Q1, Q2.
-      + destruct (IH ab _ _ _ _ _ Hx1 Hr1 Hk E) as (f1 & c1 & P1 & Q1).
+      + destruct (IH ab _ _ _ _ _ _ HS HM Hx1 Hr1 Hk E) as (f1 & c1 & P1 & Q1).
         exists (S f1), c1. simpl. rw_mono. auto.
     - (* PAlt *)
       apply orb_true_iff in Hx. destruct Hx as [Hx|Hx].
@@ -244,17 +381,17 @@ Section Ext.
         destruct ep; try discriminate Hx. apply andb_true_iff in Hx. destruct Hx as [Hx1 Hx2].
         simpl in Hr. apply andb_true_iff in Hr. destruct Hr as [Hr1 Hr2].
         simpl in H. crunch H; inj H.
-        * destruct (IH false _ _ _ _ _ Hx1 Hr1 Hk E) as (f1 & c1 & P1 & Q1).
+        * destruct (IH false _ _ _ _ _ _ HS HM Hx1 Hr1 Hk E) as (f1 & c1 & P1 & Q1).
           exists (S f1), false. simpl. rw_mono. auto.
-        * destruct (IH false _ _ _ _ _ Hx1 Hr1 Hk E) as (f1 & c1 & P1 & Q1).
+        * destruct (IH false _ _ _ _ _ _ HS HM Hx1 Hr1 Hk E) as (f1 & c1 & P1 & Q1).
           rewrite (Q1 eq_refl) in P1.
           exists (S f1), false. simpl. rw_mono. auto.
-        * destruct (IH false _ _ _ _ _ Hx1 Hr1 Hk E) as (f1 & c1 & P1 & Q1).
+        * destruct (IH false _ _ _ _ _ _ HS HM Hx1 Hr1 Hk E) as (f1 & c1 & P1 & Q1).
           rewrite (Q1 eq_refl) in P1.
-          destruct (IH true _ _ _ _ _ Hx2 Hr2 Hk E0) as (f2 & c2 & P2 & _).
+          destruct (IH true _ _ _ _ _ _ HS HM Hx2 Hr2 Hk E0) as (f2 & c2 & P2 & _).
           exists (S (f1 + f2)), false. simpl. rw_mono. auto.
       + apply andb_true_iff in Hx. destruct Hx as [Hab Hx].
-        assert (NC : forall f c' o', ab = false -> pegc f Gp ep s = Some (c', o') -> c' = false).
+        assert (NC : forall f c' o', ab = false -> pegc f Gp LR M ep s = Some (c', o') -> c' = false).
         { intros f c' o' A P. subst ab. simpl in Hab. eapply nocut_sound; eauto. }
         apply orb_true_iff in Hx. destruct Hx as [Hx|Hx].
         * (* alternative added in front *)
@@ -263,35 +400,36 @@ Section Ext.
           simpl in H. crunch H; inj H.
           -- exfalso. eapply requires_kw_sound_c; eauto.
           -- assert (true = false) by (eapply cut_safe_sound; eauto). discriminate.
-          -- destruct (IH true _ _ _ _ _ Hxe Hr Hk E0) as (f2 & c2 & P2 & _).
+          -- destruct (IH true _ _ _ _ _ _ HS HM Hxe Hr Hk E0) as (f2 & c2 & P2 & _).
              exists f2, c2. split; [exact P2|]. intro A. eauto.
         * (* alternative added at the end *)
           apply andb_true_iff in Hx. destruct Hx as [Hrk Hxe].
           simpl in H. crunch H; inj H.
-          -- destruct (IH false _ _ _ _ _ Hxe Hr Hk E) as (f1 & c1 & P1 & Q1).
+          -- destruct (IH false _ _ _ _ _ _ HS HM Hxe Hr Hk E) as (f1 & c1 & P1 & Q1).
              exists f1, c1. split; [exact P1|]. intro A. eauto.
-          -- destruct (IH false _ _ _ _ _ Hxe Hr Hk E) as (f1 & c1 & P1 & Q1).
+          -- destruct (IH false _ _ _ _ _ _ HS HM Hxe Hr Hk E) as (f1 & c1 & P1 & Q1).
              exists f1, c1. split; [exact P1|]. intro A. eauto.
-          -- exfalso. eapply requires_kw_sound_c; eauto.
-          -- destruct (IH false _ _ _ _ _ Hxe Hr Hk E) as (f1 & c1 & P1 & Q1).
+          -- match goal with E0 : pegc n Gs LR M es2 s = Some (_, ?x) |- _ => destruct x as [t|] end;
+               [exfalso; eapply requires_kw_sound_c; eauto|].
+             destruct (IH false _ _ _ _ _ _ HS HM Hxe Hr Hk E) as (f1 & c1 & P1 & Q1).
              exists f1, c1. split; [exact P1|]. intro A. eauto.
     - (* POpt *)
       destruct ep; try discriminate Hx. simpl in Hr. simpl in H. crunch H; inj H;
-        destruct (IH true _ _ _ _ _ Hx Hr Hk E) as (f1 & c1 & P1 & _);
+        destruct (IH true _ _ _ _ _ _ HS HM Hx Hr Hk E) as (f1 & c1 & P1 & _);
         exists (S f1), false; simpl; rw_mono; auto.
     - (* PStar *)
       destruct ep; try discriminate Hx. simpl in Hr. simpl in H. crunch H; inj H.
-      + destruct (IH true _ _ _ _ _ Hx Hr Hk E) as (f1 & c1 & P1 & _).
-        destruct (IH false (PStar es) (PStar ep) _ _ _ Hx Hr (KS _ _ _ E) H) as (f2 & c2 & P2 & Q2).
+      + destruct (IH true _ _ _ _ _ _ HS HM Hx Hr Hk E) as (f1 & c1 & P1 & _).
+        destruct (IH false (PStar es) (PStar ep) _ _ _ _ HS HM Hx Hr (KS _ _ _ E) H) as (f2 & c2 & P2 & Q2).
         exists (S (f1 + f2)), c2. simpl. rw_mono. auto.
-      + destruct (IH true _ _ _ _ _ Hx Hr Hk E) as (f1 & c1 & P1 & _).
+      + destruct (IH true _ _ _ _ _ _ HS HM Hx Hr Hk E) as (f1 & c1 & P1 & _).
         exists (S f1), false. simpl. rw_mono. auto.
     - (* PPlus *)
       destruct ep; try discriminate Hx. simpl in Hr. simpl in H. crunch H; inj H.
-      + destruct (IH true _ _ _ _ _ Hx Hr Hk E) as (f1 & c1 & P1 & _).
-        destruct (IH false (PStar es) (PStar ep) _ _ _ Hx Hr (KS _ _ _ E) H) as (f2 & c2 & P2 & Q2).
+      + destruct (IH true _ _ _ _ _ _ HS HM Hx Hr Hk E) as (f1 & c1 & P1 & _).
+        destruct (IH false (PStar es) (PStar ep) _ _ _ _ HS HM Hx Hr (KS _ _ _ E) H) as (f2 & c2 & P2 & Q2).
         exists (S (f1 + f2)), c2. simpl. rw_mono. auto.
-      + destruct (IH true _ _ _ _ _ Hx Hr Hk E) as (f1 & c1 & P1 & _).
+      + destruct (IH true _ _ _ _ _ _ HS HM Hx Hr Hk E) as (f1 & c1 & P1 & _).
         exists (S f1), false. simpl. rw_mono. auto.
     - (* PGather *)
       destruct ep; try discriminate Hx. simpl in Hr.
@@ -299,61 +437,70 @@ Section Ext.
       apply andb_true_iff in Hx. destruct Hx as [Hx1 Hx2].
       apply andb_true_iff in Hr. destruct Hr as [Hr1 Hr2].
       simpl in H. crunch H; inj H.
-      + destruct (IH true _ _ _ _ _ Hx2 Hr2 Hk E) as (f1 & c1 & P1 & _).
-        destruct (IH false (PStar (PSeq es1 es2)) (PStar (PSeq ep1 ep2)) _ _ _ Hx' Hr' (KS _ _ _ E) H)
+      + destruct (IH true _ _ _ _ _ _ HS HM Hx2 Hr2 Hk E) as (f1 & c1 & P1 & _).
+        destruct (IH false (PStar (PSeq es1 es2)) (PStar (PSeq ep1 ep2)) _ _ _ _ HS HM Hx' Hr' (KS _ _ _ E) H)
           as (f2 & c2 & P2 & Q2).
         exists (S (f1 + f2)), c2. simpl. rw_mono. auto.
-      + destruct (IH true _ _ _ _ _ Hx2 Hr2 Hk E) as (f1 & c1 & P1 & _).
+      + destruct (IH true _ _ _ _ _ _ HS HM Hx2 Hr2 Hk E) as (f1 & c1 & P1 & _).
         exists (S f1), false. simpl. rw_mono. auto.
     - (* PPos *)
       destruct ep; try discriminate Hx. simpl in Hr. simpl in H. crunch H; inj H;
-        destruct (IH true _ _ _ _ _ Hx Hr Hk E) as (f1 & c1 & P1 & _);
+        destruct (IH true _ _ _ _ _ _ HS HM Hx Hr Hk E) as (f1 & c1 & P1 & _);
         exists (S f1), false; simpl; rw_mono; auto.
     - (* PNeg *)
       destruct ep; try discriminate Hx. simpl in Hr. simpl in H. crunch H; inj H;
-        destruct (IH true _ _ _ _ _ Hx Hr Hk E) as (f1 & c1 & P1 & _);
+        destruct (IH true _ _ _ _ _ _ HS HM Hx Hr Hk E) as (f1 & c1 & P1 & _);
         exists (S f1), false; simpl; rw_mono; auto.
     - (* PCut *)
       destruct ep; try discriminate Hx. exists 1%nat, c. split; [exact H|auto].
     - (* PForced *)
       destruct ep; try discriminate Hx. simpl in Hr. simpl in H.
-      destruct (IH ab _ _ _ _ _ Hx Hr Hk H) as (f1 & c1 & P1 & Q1).
+      destruct (IH ab _ _ _ _ _ _ HS HM Hx Hr Hk H) as (f1 & c1 & P1 & Q1).
       exists (S f1), c1. simpl. auto.
   Qed.
 End Ext.
 
-(* On keyword-free input the Scenic grammar gives exactly the Python grammar's result. *)
+(* On keyword-free input the Scenic grammar gives exactly the Python grammar's result
+   (LR: the left-recursive leader rules, the same on both sides). *)
+Theorem conservative_extension_lr : forall K tbl Gs Gp LR es ep s,
+  ext_grammar K tbl Gs Gp = true -> kw_consistent Gs K tbl = true ->
+  ext_check K tbl es ep = true -> refs_defined Gp ep = true -> kwfree K s = true ->
+  forall fuel r, peglr fuel Gs LR es s = Some r -> exists fuel', peglr fuel' Gp LR ep s = Some r.
+Proof.
+  intros K tbl Gs Gp LR es ep s HG HC Hx Hr Hk fuel r H. unfold peglr in *.
+  destruct (pegc fuel Gs LR [] es s) as [[c o]|] eqn:E; [|discriminate]. simpl in H. inversion H; subst.
+  destruct (proj1 (ext_both K tbl Gs Gp LR HG HC fuel) _ _ _ _ _ _ _ Msuf_nil (Mkw_nil K tbl) Hx Hr Hk E)
+    as (f & c' & P & _).
+  exists f. now rewrite P.
+Qed.
+
 Theorem conservative_extension : forall K tbl Gs Gp es ep s,
   ext_grammar K tbl Gs Gp = true -> kw_consistent Gs K tbl = true ->
   ext_check K tbl es ep = true -> refs_defined Gp ep = true -> kwfree K s = true ->
   forall fuel r, peg fuel Gs es s = Some r -> exists fuel', peg fuel' Gp ep s = Some r.
-Proof.
-  intros K tbl Gs Gp es ep s HG HC Hx Hr Hk fuel r H. unfold peg in *.
-  destruct (pegc fuel Gs es s) as [[c o]|] eqn:E; [|discriminate]. simpl in H. inversion H; subst.
-  destruct (ext_sound_c K tbl Gs Gp HG HC _ _ _ _ _ _ _ Hx Hr Hk E) as (f & c' & P & _).
-  exists f. now rewrite P.
-Qed.
+Proof. intros K tbl Gs Gp. exact (conservative_extension_lr K tbl Gs Gp []). Qed.
 
 (* the instance for a start rule defined in the Python grammar *)
-Corollary conservative_extension_rule : forall K tbl Gs Gp start s,
+Corollary conservative_extension_rule : forall K tbl Gs Gp LR start s,
   ext_grammar K tbl Gs Gp = true -> kw_consistent Gs K tbl = true ->
   refs_defined Gp (PRule start) = true -> kwfree K s = true ->
-  forall fuel r, peg fuel Gs (PRule start) s = Some r -> exists fuel', peg fuel' Gp (PRule start) s = Some r.
+  forall fuel r, peglr fuel Gs LR (PRule start) s = Some r ->
+  exists fuel', peglr fuel' Gp LR (PRule start) s = Some r.
 Proof.
-  intros K tbl Gs Gp start s HG HC Hr Hk. eapply conservative_extension; eauto.
+  intros K tbl Gs Gp LR start s HG HC Hr Hk. eapply conservative_extension_lr; eauto.
   unfold ext_check. simpl. apply N.eqb_refl.
 Qed.
 
 (* whenever both parsers terminate they agree (covers the converse direction up to termination of the Scenic run) *)
-Corollary ext_agree : forall K tbl Gs Gp es ep s,
+Corollary ext_agree : forall K tbl Gs Gp LR es ep s,
   ext_grammar K tbl Gs Gp = true -> kw_consistent Gs K tbl = true ->
   ext_check K tbl es ep = true -> refs_defined Gp ep = true -> kwfree K s = true ->
-  forall f1 f2 r1 r2, peg f1 Gs es s = Some r1 -> peg f2 Gp ep s = Some r2 -> r1 = r2.
+  forall f1 f2 r1 r2, peglr f1 Gs LR es s = Some r1 -> peglr f2 Gp LR ep s = Some r2 -> r1 = r2.
 Proof.
-  intros K tbl Gs Gp es ep s HG HC Hx Hr Hk f1 f2 r1 r2 H1 H2.
-  destruct (conservative_extension _ _ _ _ _ _ _ HG HC Hx Hr Hk _ _ H1) as (f & P).
-  pose proof (peg_mono _ _ _ _ _ P (f + f2)%nat ltac:(lia)) as A.
-  pose proof (peg_mono _ _ _ _ _ H2 (f + f2)%nat ltac:(lia)) as B.
+  intros K tbl Gs Gp LR es ep s HG HC Hx Hr Hk f1 f2 r1 r2 H1 H2.
+  destruct (conservative_extension_lr _ _ _ _ _ _ _ _ HG HC Hx Hr Hk _ _ H1) as (f & P).
+  pose proof (peglr_mono _ _ _ _ _ _ P (f + f2)%nat ltac:(lia)) as A.
+  pose proof (peglr_mono _ _ _ _ _ _ H2 (f + f2)%nat ltac:(lia)) as B.
   congruence.
 Qed.
 
@@ -393,15 +540,36 @@ Module Ex.
     /\ peg 10 Gs (PRule stmt) [EQ; NAME] = Some None
     /\ peg 10 Gp (PRule stmt) [EQ; NAME] = Some None.
   Proof. vm_compute. auto. Qed.
-  (* x = new y : Scenic consumes everything, Python stops after  x = ... no: fails the first alternative, takes `expr` *)
+  (* x = new y : Scenic consumes everything; Python fails the first alternative and takes `expr`, consuming only x *)
   Example ex_new : kwfree K [NAME; EQ; NEW; NAME] = false
     /\ peg 10 Gs (PRule stmt) [NAME; EQ; NEW; NAME] = Some (Some [])
     /\ peg 10 Gp (PRule stmt) [NAME; EQ; NEW; NAME] = Some (Some [EQ; NEW; NAME]).
   Proof. vm_compute. auto. Qed.
   (* the theorem instantiated *)
-  Example ex_thm : forall s, kwfree K s = true -> forall fuel r,
-    peg fuel Gs (PRule stmt) s = Some r -> exists fuel', peg fuel' Gp (PRule stmt) s = Some r.
-  Proof. intros s Hk. exact (conservative_extension_rule K tbl Gs Gp stmt s ex_ext ex_kwc ex_refs Hk). Qed.
+  Example ex_thm : forall LR s, kwfree K s = true -> forall fuel r,
+    peglr fuel Gs LR (PRule stmt) s = Some r -> exists fuel', peglr fuel' Gp LR (PRule stmt) s = Some r.
+  Proof. intros LR s Hk. exact (conservative_extension_rule K tbl Gs Gp LR stmt s ex_ext ex_kwc ex_refs Hk). Qed.
+
+  (* left recursion (seed growing):  sum: sum '+' NAME | NAME   vs   sum: sum '+' NAME | sum 'at' NAME | NAME *)
+  Definition PLUS := 4. Definition AT := 12. Definition sum := 3.
+  Definition Gp2 : grammar :=
+    [ (sum, PAlt (PSeq (PRule sum) (PSeq (PTok PLUS) (PTok NAME))) (PTok NAME)) ].
+  Definition Gs2 : grammar :=
+    [ (sum, PAlt (PSeq (PRule sum) (PSeq (PTok PLUS) (PTok NAME)))
+                 (PAlt (PSeq (PRule sum) (PSeq (PTok AT) (PTok NAME))) (PTok NAME))) ].
+  Example ex_lr_ext : ext_grammar [AT] [] Gs2 Gp2 = true /\ kw_consistent Gs2 [AT] [] = true.
+  Proof. vm_compute. auto. Qed.
+  (* x + y + z : left-associative growth consumes everything on both sides; without LR support the run diverges *)
+  Example ex_lr_free :
+    peglr 30 Gs2 [sum] (PRule sum) [NAME; PLUS; NAME; PLUS; NAME] = Some (Some [])
+    /\ peglr 30 Gp2 [sum] (PRule sum) [NAME; PLUS; NAME; PLUS; NAME] = Some (Some [])
+    /\ peg 30 Gp2 (PRule sum) [NAME; PLUS; NAME; PLUS; NAME] = None.
+  Proof. vm_compute. auto. Qed.
+  (* x at y + z : Scenic consumes everything, Python stops before 'at' *)
+  Example ex_lr_kw :
+    peglr 30 Gs2 [sum] (PRule sum) [NAME; AT; NAME; PLUS; NAME] = Some (Some [])
+    /\ peglr 30 Gp2 [sum] (PRule sum) [NAME; AT; NAME; PLUS; NAME] = Some (Some [AT; NAME; PLUS; NAME]).
+  Proof. vm_compute. auto. Qed.
 
   (* cut is precise:  r: 'a' ~ 'b' | 'a'   fails on  a  although the second alternative would match *)
   Definition Gc : grammar := [ (0, PAlt (PSeq (PTok 1) (PSeq PCut (PTok 2))) (PTok 1)) ].
@@ -425,9 +593,13 @@ Module Ex.
   Example ex_spin : peg 50 [] (PStar PEps) [1] = None. Proof. vm_compute. reflexivity. Qed.
 End Ex.
 
+Print Assumptions peglr_suffix.
+Print Assumptions peglr_mono.
 Print Assumptions peg_suffix.
 Print Assumptions peg_mono.
+Print Assumptions requires_kw_sound_lr.
 Print Assumptions requires_kw_sound.
+Print Assumptions conservative_extension_lr.
 Print Assumptions conservative_extension.
 Print Assumptions conservative_extension_rule.
 Print Assumptions ext_agree.
